@@ -2077,9 +2077,9 @@ class Data(BaseCartesianData):
         # increase xmax very slightly to make sure that this doesn't happen, to
         # be consistent with np.histogram.
         if ndim >= 1:
-            xmax += 10 * np.spacing(xmax)
+            xmax += 10 * np.abs(np.spacing(xmax))
         if ndim >= 2:
-            ymax += 10 * np.spacing(ymax)
+            ymax += 10 * np.abs(np.spacing(ymax))
 
         if ndim == 1:
             range = (xmin, xmax)
